@@ -6,12 +6,13 @@ package main
 import (
 	"bytes"
 	"fmt"
-	"io"
 	"os"
 	"path/filepath"
 	"regexp"
 	"strings"
+	"sync/atomic"
 	"syscall"
+	"time"
 
 	"filippo.io/age"
 	"filippo.io/age/internal/stream"
@@ -297,24 +298,40 @@ func main() {
 						if err := syscall.Mkfifo(fifo, 0600); err != nil {
 							panic(err)
 						}
+						// The reading end is opened (non-blocking) BEFORE age starts: age opens the FIFO read-write, so if it
+						// wrote and closed before any reader existed the kernel would discard the data. The drain loop
+						// polls: 0 bytes = no writer (yet, or any more), EAGAIN = writer present but nothing to read.
+						fd, err := syscall.Open(fifo, syscall.O_RDONLY|syscall.O_NONBLOCK, 0)
+						if err != nil {
+							panic(err)
+						}
+						var finished int32
 						got := make(chan []byte, 1)
 						go func() {
-							f, err := os.OpenFile(fifo, os.O_RDONLY, 0)
-							if err != nil {
-								got <- nil
-								return
+							var b []byte
+							buf := make([]byte, 1<<16)
+							for {
+								fin := atomic.LoadInt32(&finished) == 1
+								n, err := syscall.Read(fd, buf)
+								if n > 0 {
+									b = append(b, buf[:n]...)
+									continue
+								}
+								if err == syscall.EINTR {
+									continue
+								}
+								if fin {
+									break // age had exited before this read found nothing
+								}
+								time.Sleep(200 * time.Microsecond)
 							}
-							b, _ := io.ReadAll(f)
-							f.Close()
 							got <- b
 						}()
 						cmd = build(s, []string{"-o", "out.fifo"})
 						r = cmd.Run()
-						// release the reader if age never opened the FIFO
-						if w, err := os.OpenFile(fifo, os.O_WRONLY|syscall.O_NONBLOCK, 0); err == nil {
-							w.Close()
-						}
+						atomic.StoreInt32(&finished, 1)
 						out = <-got
+						syscall.Close(fd)
 						os.Remove(fifo)
 					}
 					c.Eval(1)
